@@ -65,6 +65,16 @@ pub struct Shared {
     /// loop forever on it) or with an absurd size (> 4 GiB; the allocation would abort the process): the harness
     /// then refuses instead, and the checks report the flag
     pub bad_answer: Cell<Option<(usize, usize)>>,
+    /// length of the whole input (0 = unknown). A growth request made while the buffer is already larger than the
+    /// whole input cannot be justified by any record; it is refused (a runaway reader would otherwise exhaust the
+    /// memory before any oracle runs) and flagged in `runaway`
+    pub input_len: Cell<usize>,
+    pub runaway: Cell<Option<usize>>,
+    /// (current size, number of consecutive requests with that same size that were answered with a larger size):
+    /// a reader that keeps asking without adopting the answer never returns and would fill the memory with log
+    /// entries; after 10 000 such requests the harness refuses and flags `stalled`
+    pub repeat: Cell<(usize, u32)>,
+    pub stalled: Cell<Option<usize>>,
 }
 
 pub type PolLog = Rc<RefCell<Vec<PolEvent>>>;
@@ -85,6 +95,24 @@ impl RecPolicy {
 impl BufPolicy for RecPolicy {
     fn grow_to(&mut self, current_size: usize) -> Option<usize> {
         let mut answer = self.kind.answer(current_size);
+        let input_len = self.shared.input_len.get();
+        if input_len > 0 && current_size > input_len + 2 {
+            if self.shared.runaway.get().is_none() {
+                self.shared.runaway.set(Some(current_size));
+            }
+            answer = None;
+        }
+        if answer.is_some() {
+            let (last, n) = self.shared.repeat.get();
+            let n = if last == current_size { n + 1 } else { 0 };
+            self.shared.repeat.set((current_size, n));
+            if n >= 10_000 {
+                if self.shared.stalled.get().is_none() {
+                    self.shared.stalled.set(Some(current_size));
+                }
+                answer = None;
+            }
+        }
         if let Some(a) = answer {
             if a <= current_size || a > (1usize << 32) {
                 // never hand such an answer to the reader (livelock / allocation failure); see `Shared::bad_answer`
